@@ -2,7 +2,7 @@
 Require Import ZArith List Bool Lia ZifyBool Sorted Permutation.
 Import ListNotations.
 Local Open Scope Z_scope.
-From EphVerif Require Import lib.Bytes model.PowModel proofs.PowProofs model.BucketModel gen.Constants_bucket.
+From EphVerif Require Import lib.Bytes lib.Sweep model.PowModel proofs.PowProofs model.BucketModel gen.Constants_bucket.
 Ltac Zify.zify_post_hook ::= Z.div_mod_to_equations.
 
 (* ---------------------------------------------------------------- list helpers *)
@@ -248,21 +248,6 @@ Proof.
   unfold bucket_index_for. rewrite lead_zero_loop_spec. cbn zeta. unfold id_bits.
   replace (0 + clz (xor_bytes s p)) with (clz (xor_bytes s p)) by lia.
   destruct (forallb _ _ || _); [reflexivity | f_equal; lia].
-Qed.
-
-Definition lxor_check (a : Z) : bool := forallb (fun b => let x := Z.lxor a b in (0 <=? x) && (x <? 256) && Bool.eqb (x =? 0) (a =? b)) bytes256.
-Lemma lxor_sweep : forallb lxor_check bytes256 = true.
-Proof. vm_compute. reflexivity. Qed.
-
-Lemma lxor_byte a b : byte_ok a -> byte_ok b -> byte_ok (Z.lxor a b) /\ (Z.lxor a b = 0 <-> a = b).
-Proof.
-  intros Ha Hb. pose proof lxor_sweep as S. rewrite forallb_forall in S.
-  specialize (S a (in_bytes256 a Ha)). unfold lxor_check in S. rewrite forallb_forall in S.
-  specialize (S b (in_bytes256 b Hb)). cbn zeta in S.
-  apply andb_true_iff in S. destruct S as [S1 S2]. apply andb_true_iff in S1. destruct S1 as [S0 S1].
-  apply Bool.eqb_prop in S2. unfold byte_ok. split; [lia|]. split; intros H.
-  - assert ((Z.lxor a b =? 0) = true) by lia. rewrite S2 in H0. lia.
-  - assert ((a =? b) = true) by lia. rewrite <- S2 in H0. lia.
 Qed.
 
 Lemma xor_bytes_ok a b : bytes_ok a -> bytes_ok b -> bytes_ok (xor_bytes a b).
